@@ -27,10 +27,17 @@ def entries():
     e["iso-patterns"] = (lambda: LocalDatePattern.iso.format(d), lambda: LocalDateTimePattern.extended_iso.format(LocalDateTime(2020, 1, 2, 3, 4, 5)))
     e["instant-repr"] = (lambda: repr(Instant.from_unix_time_seconds(86400)), lambda: InstantPattern.general.format(Instant.from_unix_time_seconds(0)))
     e["offset-patterns"] = (lambda: OffsetPattern.general_invariant.format(Offset.from_hours(5)), lambda: repr(Offset.from_seconds(-3723)))
+    from pyoda_time import DateAdjusters
+    d2 = LocalDate(2024, 2, 28)
+    e["date-adjusters"] = (lambda: (repr(DateAdjusters.next(IsoDayOfWeek.TUESDAY)(d2)), repr(DateAdjusters.previous(IsoDayOfWeek.FRIDAY)(d2)), repr(DateAdjusters.end_of_month(d2)),
+                                    repr(DateAdjusters.next_or_same(IsoDayOfWeek.WEDNESDAY)(d2))),
+                           lambda: (repr(DateAdjusters.next(IsoDayOfWeek.WEDNESDAY)(d2)), repr(DateAdjusters.previous(IsoDayOfWeek.SUNDAY)(d2)), repr(DateAdjusters.start_of_month(d2)),
+                                    repr(DateAdjusters.day_of_month(15)(d2)), repr(DateAdjusters.previous_or_same(IsoDayOfWeek.MONDAY)(d2))))
     return e
 
 
 FILES = {
+    "date-adjusters": ("_date_adjusters.py",),
     "weekyear-rules": ("_week_year_rules.py", "_simple_week_year_rule.py"),
     "calendar-hebrew": ("_calendar_system.py",),
     "calendar-islamic": ("_calendar_system.py",),
